@@ -36,6 +36,14 @@ impl Chooser {
         Chooser { src: Source::Replay { vals, idx: 0 }, tape: Vec::new(), overrun: 0 }
     }
 
+    /// the values this chooser replays (None in record mode)
+    pub fn replay_values(&self) -> Option<&[u64]> {
+        match &self.src {
+            Source::Replay { vals, .. } => Some(vals),
+            Source::Rng(_) => None,
+        }
+    }
+
     pub fn is_replay(&self) -> bool {
         matches!(self.src, Source::Replay { .. })
     }
